@@ -69,10 +69,20 @@ def as_num(e):
 class Tr:
     """Translate one function by symbolic execution. Result of a block is Coq text of type res X."""
 
+    OK = 'Ok'
+    BINDC = 'bindc'
+    RUN = 'run'
+
     def __init__(self, fn):
         self.fn = fn
         self.k = 0
         self.sty = "Datatypes.unit"
+
+    def raise_(self, exc, env):
+        return f"Err {exc}"
+
+    def bind_text(self, c, v, body, env):
+        return f"bind {c} (fun {v} =>\n {body})"
 
     def fresh(self, base):
         self.k += 1
@@ -180,9 +190,9 @@ class Tr:
             return E(v, 'num')
         raise Unsupported(ast.dump(n)[:200])
 
-    def wrap(self, binds, body):
+    def wrap(self, binds, body, env=None):
         for v, c in reversed(binds):
-            body = f"bind {c} (fun {v} =>\n {body})"
+            body = self.bind_text(c, v, body, env)
         return body
 
     # ---- statements. Emitted text has type  res (ctl R S): Return r | Fall s
@@ -202,17 +212,17 @@ class Tr:
         if isinstance(s, ast.Expr):
             if isinstance(s.value, ast.Constant): return cont(env)
             binds = []; self.expr(s.value, env, binds)
-            return self.wrap(binds, cont(env))
+            return self.wrap(binds, cont(env), env)
         if isinstance(s, ast.Assign) and len(s.targets) == 1 and isinstance(s.targets[0], ast.Name):
             binds = []; v = self.expr(s.value, env, binds)
             env2 = dict(env); env2[s.targets[0].id] = v
-            return self.wrap(binds, cont(env2))
+            return self.wrap(binds, cont(env2), env)
         if isinstance(s, ast.Return):
             binds = []; v = self.expr(s.value, env, binds)
-            return self.wrap(binds, f"Ok (@Return _ {self.sty} {coerce(v, self.rty)})")
+            return self.wrap(binds, f"{self.OK} (@Return _ {self.sty} {coerce(v, self.rty)})", env)
         if isinstance(s, ast.Raise):
             exc = s.exc.func.id if isinstance(s.exc, ast.Call) else s.exc.id
-            return f"Err {exc}"
+            return self.raise_(exc, env)
         if isinstance(s, ast.If):
             binds = []; c = truthy(self.expr(s.test, env, binds))
             W = [w for w in self.assigned(s.body + s.orelse)]
@@ -238,8 +248,8 @@ class Tr:
                 else: raise Unsupported(f"cannot unify {w}: {t}")
                 W2.append(w); tys[w] = u
             def fall(e):
-                if not W2: return "Ok (Fall tt)"
-                return "Ok (Fall (" + ", ".join(coerce(e[w], tys[w]) for w in W2) + "))"
+                if not W2: return f"{self.OK} (Fall tt)"
+                return f"{self.OK} (Fall (" + ", ".join(coerce(e[w], tys[w]) for w in W2) + "))"
             old_sty = self.sty
             self.sty = "Datatypes.unit" if not W2 else "(" + " * ".join(COQ_TY[tys[w]] for w in W2) + ")"
             t = self.block(s.body, env, fall)
@@ -250,7 +260,7 @@ class Tr:
             for w in W2:
                 nm = self.fresh(w); names.append(nm); env2[w] = E(nm, tys[w])
             pat = "_" if not W2 else ("'(" + ", ".join(names) + ")" if len(names) > 1 else names[0])
-            return self.wrap(binds, f"bindc (if {c}\n then {t}\n else {f}) (fun {pat} =>\n {cont(env2)})")
+            return self.wrap(binds, f"{self.BINDC} (if {c}\n then {t}\n else {f}) (fun {pat} =>\n {cont(env2)})", env)
         raise Unsupported(ast.dump(s)[:200])
 
     def translate(self):
